@@ -3,7 +3,7 @@ INIT MCInit
 NEXT Next
 CONSTANTS
   Algo = "asis"
-  SeedCopyreg = TRUE
+  SeedCopyreg = "live"
   Scns = {}
 INVARIANT WitDump
 CHECK_DEADLOCK FALSE
